@@ -1,0 +1,239 @@
+//go:build verif
+
+// Hooks for the verification harness in /verif (properties C30, C35, C29).
+// Add-only: nothing in this file is compiled without the `verif` build tag and
+// nothing here changes the behaviour of the package; it only gives read access
+// to unexported state. All names hang off the wrapper type VerifSrvA so that
+// they cannot collide with hooks of other properties.
+
+package server
+
+import (
+	"fmt"
+	"net"
+	"sort"
+	"sync/atomic"
+
+	"github.com/gopcua/opcua/ua"
+)
+
+// VerifSrvA wraps a server for read-only inspection.
+type VerifSrvA struct{ S *Server }
+
+// ListenAddr returns the address the listener is bound to (port 0 endpoints).
+func (v VerifSrvA) ListenAddr() net.Addr {
+	if v.S.l == nil {
+		return nil
+	}
+	return v.S.l.Addr()
+}
+
+// VerifChanA describes one secure channel registered with the channel broker.
+type VerifChanA struct {
+	ID     uint32
+	Policy string
+	Mode   ua.MessageSecurityMode
+	Active bool // an OpenSecureChannel request was accepted on it
+}
+
+// ChannelCounter returns the broker's channel id counter: it is incremented
+// once per connection RegisterConn takes.
+func (v VerifSrvA) ChannelCounter() uint32 {
+	v.S.cb.mu.RLock()
+	defer v.S.cb.mu.RUnlock()
+	return v.S.cb.secureChannelID
+}
+
+// Channels returns the channels currently registered with the broker.
+func (v VerifSrvA) Channels() []VerifChanA {
+	v.S.cb.mu.RLock()
+	defer v.S.cb.mu.RUnlock()
+	out := make([]VerifChanA, 0, len(v.S.cb.s))
+	for id, sc := range v.S.cb.s {
+		cfg := sc.VerifConfig()
+		out = append(out, VerifChanA{ID: id, Policy: cfg.SecurityPolicyURI, Mode: cfg.SecurityMode, Active: sc.VerifActive() != nil})
+	}
+	sort.Slice(out, func(i, j int) bool { return out[i].ID < out[j].ID })
+	return out
+}
+
+// EnabledSec returns the configured (policy, mode) pairs in configuration order.
+func (v VerifSrvA) EnabledSec() (policies []string, modes []ua.MessageSecurityMode) {
+	for _, s := range v.S.cfg.enabledSec {
+		policies = append(policies, s.secPolicy)
+		modes = append(modes, s.secMode)
+	}
+	return
+}
+
+// SessionTokens returns the authentication tokens (NodeID strings) of the
+// sessions the session broker currently holds, sorted.
+func (v VerifSrvA) SessionTokens() []string {
+	v.S.sb.mu.Lock()
+	defer v.S.sb.mu.Unlock()
+	out := make([]string, 0, len(v.S.sb.s))
+	for k := range v.S.sb.s {
+		out = append(out, k)
+	}
+	sort.Strings(out)
+	return out
+}
+
+// HandlerIDs returns the registered service type ids, sorted.
+func (v VerifSrvA) HandlerIDs() []uint16 {
+	out := make([]uint16, 0, len(v.S.handlers))
+	for k := range v.S.handlers {
+		out = append(out, k)
+	}
+	sort.Slice(out, func(i, j int) bool { return out[i] < out[j] })
+	return out
+}
+
+// SubscriptionIDs returns the ids in the subscription table, sorted.
+func (v VerifSrvA) SubscriptionIDs() []uint32 {
+	ss := v.S.SubscriptionService
+	if ss == nil {
+		return nil
+	}
+	ss.Mu.Lock()
+	defer ss.Mu.Unlock()
+	out := make([]uint32, 0, len(ss.Subs))
+	for k := range ss.Subs {
+		out = append(out, k)
+	}
+	sort.Slice(out, func(i, j int) bool { return out[i] < out[j] })
+	return out
+}
+
+// MonitoredItemIDs returns the ids in the monitored item table, sorted.
+func (v VerifSrvA) MonitoredItemIDs() []uint32 {
+	ms := v.S.MonitoredItemService
+	if ms == nil {
+		return nil
+	}
+	ms.Mu.Lock()
+	defer ms.Mu.Unlock()
+	out := make([]uint32, 0, len(ms.Items))
+	for k := range ms.Items {
+		out = append(out, k)
+	}
+	sort.Slice(out, func(i, j int) bool { return out[i] < out[j] })
+	return out
+}
+
+// VerifSessA is one entry of the session table.
+type VerifSessA struct {
+	Token  string // AuthTokenID.String()
+	Queued int    // len(PublishRequests)
+}
+
+// Sessions returns the session table sorted by token string.
+func (v VerifSrvA) Sessions() []VerifSessA {
+	v.S.sb.mu.Lock()
+	defer v.S.sb.mu.Unlock()
+	out := make([]VerifSessA, 0, len(v.S.sb.s))
+	for k, s := range v.S.sb.s {
+		out = append(out, VerifSessA{Token: k, Queued: len(s.PublishRequests)})
+	}
+	sort.Slice(out, func(i, j int) bool { return out[i].Token < out[j].Token })
+	return out
+}
+
+// VerifSubA is one entry of the subscription table.
+type VerifSubA struct {
+	ID    uint32
+	Owner string // AuthTokenID.String() of sub.Session, "" when sub.Session is nil
+}
+
+// Subs returns the subscription table sorted by id.
+func (v VerifSrvA) Subs() []VerifSubA {
+	ss := v.S.SubscriptionService
+	if ss == nil {
+		return nil
+	}
+	ss.Mu.Lock()
+	defer ss.Mu.Unlock()
+	out := make([]VerifSubA, 0, len(ss.Subs))
+	for k, s := range ss.Subs {
+		o := ""
+		if s.Session != nil && s.Session.AuthTokenID != nil {
+			o = s.Session.AuthTokenID.String()
+		}
+		out = append(out, VerifSubA{ID: k, Owner: o})
+	}
+	sort.Slice(out, func(i, j int) bool { return out[i].ID < out[j].ID })
+	return out
+}
+
+// VerifItemA is one entry of the monitored item table.
+type VerifItemA struct {
+	ID  uint32
+	Sub uint32
+}
+
+// Items returns the monitored item table sorted by id and the id counter.
+func (v VerifSrvA) Items() ([]VerifItemA, uint32) {
+	ms := v.S.MonitoredItemService
+	if ms == nil {
+		return nil, 0
+	}
+	ms.Mu.Lock()
+	defer ms.Mu.Unlock()
+	out := make([]VerifItemA, 0, len(ms.Items))
+	for k, it := range ms.Items {
+		var sub uint32
+		if it != nil && it.Sub != nil {
+			sub = it.Sub.ID
+		}
+		out = append(out, VerifItemA{ID: k, Sub: sub})
+	}
+	sort.Slice(out, func(i, j int) bool { return out[i].ID < out[j].ID })
+	return out, atomic.LoadUint32(&ms.id)
+}
+
+// AttrDesc describes the attribute map entry of a node: "nonode", "absent",
+// "novalue" (a DataValue without Variant) or the Go type of the Variant's value.
+func (v VerifSrvA) AttrDesc(nid *ua.NodeID, attr ua.AttributeID) string {
+	n := v.S.Node(nid)
+	if n == nil {
+		return "nonode"
+	}
+	dv, ok := n.attr[attr]
+	if !ok || dv == nil {
+		return "absent"
+	}
+	if dv.Value == nil {
+		return "novalue"
+	}
+	return fmt.Sprintf("%T", dv.Value.Value())
+}
+
+// RefTypeSubRefs evaluates the real getSubRefs for every ReferenceType node of
+// namespace 0: numeric id of the reference type -> numeric ids in the order
+// getSubRefs returns them (entries that are not numeric ns=0 ids are skipped).
+func (v VerifSrvA) RefTypeSubRefs() map[uint32][]uint32 {
+	out := map[uint32][]uint32{}
+	n0, ok := v.S.namespaces[0].(*NodeNameSpace)
+	if !ok {
+		return out
+	}
+	n0.mu.RLock()
+	nodes := append([]*Node(nil), n0.nodes...)
+	n0.mu.RUnlock()
+	for _, n := range nodes {
+		if n == nil || n.id == nil || n.id.Namespace() != 0 || n.id.Type() == ua.NodeIDTypeString || n.id.Type() == ua.NodeIDTypeGUID || n.id.Type() == ua.NodeIDTypeByteString {
+			continue
+		}
+		if n.NodeClass() != ua.NodeClassReferenceType {
+			continue
+		}
+		var l []uint32
+		for _, r := range getSubRefs(v.S, n.id) {
+			if r != nil && r.Namespace() == 0 {
+				l = append(l, r.IntID())
+			}
+		}
+		out[n.id.IntID()] = l
+	}
+	return out
+}
